@@ -1,5 +1,6 @@
 import I2N.Lemmas.Trav
 import I2N.Lemmas.TravProgress
+import I2N.Lemmas.TravTerm
 import I2N.Model.TravMon
 /-!
 # C02 — Traversal terminates and every selected test gets a definite result  (partial by design)
@@ -299,5 +300,302 @@ def sNeg : State :=
   runSchedule gNeg 9 (initState gNeg 2 []) [(0, ⟨none, 0⟩), (0, ⟨some "PASS", 1⟩), (1, ⟨none, 0⟩)]
 
 theorem dead_worker_keeps_mark : (sNeg.nd 2).started = some 1 ∧ (sNeg.wd 1).pc.isFailed = true := by decide
+
+/-! ## Termination of the loop between two suspension points (`Lemmas/TravTerm.lean`)
+
+`runLoop g w fuel s evs` runs worker `w` from one suspension point to the next; `fuel` bounds the number of consecutive
+iterations without suspension and the model emits `raise … "fuel"` when it runs out.  The theorems below show that
+this branch is dead for `fuel ≥ bound g`, an explicit function of the static graph
+(`bound g = 2·(2·|nodes|+3)·|edge ends| + 2·|nodes| + 4`), i.e. a worker never spins silently between two suspensions,
+whatever the state of the other workers. -/
+
+open I2N.Trav.Term in
+/-- **Termination of a block.**  Graph: edges recorded at both ends, acyclic (`Ranked`).  State (`Good`): a dynamic
+record for every node, registers for every class, no unexplored flat node, the path of the worker has the shape the walk
+gives it (down from the root, then up; in particular `[root]`).  Then with `fuel ≥ bound g` the loop ends by itself —
+in a suspension (test started, back-off sleep), the exit through the shared root or an exception of the traversal —
+and its result does not depend on the fuel: `runLoopO` is `runLoop` with the exhaustion of the fuel made explicit. -/
+theorem loop_terminates (g : Graph) (d : Nat → Nat) (hr : Ranked g d) (hsym : EdgeSym g) (w : Nat) (s : State)
+    (evs : List Event) (hg : Good g d w s) (fuel : Nat) (hf : bound g ≤ fuel) :
+    ∃ r, runLoopO g w (bound g) s evs = some r ∧ runLoop g w fuel s evs = r :=
+  runLoop_terminates g d hr hsym w s evs hg fuel hf
+
+open I2N.Trav.Term in
+/-- the measure behind it: every iteration that neither suspends nor leaves the loop strictly lowers `phi`, which is
+below `bound g` in good states, and leads to a good state again -/
+theorem iteration_lowers_measure (g : Graph) (d : Nat → Nat) (hr : Ranked g d) (hsym : EdgeSym g) (w : Nat) (s : State)
+    (hg : Good g d w s) (hc : (iterL g s w).2.2 = .cont) :
+    phi g (iterL g s w).1 w < phi g s w ∧ phi g s w < bound g ∧ Good g d w (iterL g s w).1 :=
+  ⟨(iterL_cont g d hr hsym s w hg hc).1, phi_lt_bound g d hr s w hg.walk, (iterL_cont g d hr hsym s w hg hc).2⟩
+
+open I2N.Trav.Term in
+/-- **No silent spinning after a back-off or at the start**: a worker standing at the root (initially, and after every
+back-off sleep, which resets the path) reaches its next suspension, the exit or an exception within `bound g`
+iterations, whatever the marks, results, registers and paths of the other workers are. -/
+theorem loop_terminates_from_root (g : Graph) (d : Nat → Nat) (hr : Ranked g d) (hsym : EdgeSym g) (w : Nat) (s : State)
+    (evs : List Event) (hn : s.nodes.length = g.nodes.length) (hc : ClsOK g s) (he : Explored g s)
+    (hp : (s.wd w).path = [g.root]) (fuel : Nat) (hf : bound g ≤ fuel) :
+    ∃ r, runLoopO g w (bound g) s evs = some r ∧ runLoop g w fuel s evs = r :=
+  runLoop_terminates g d hr hsym w s evs (good_at_root g d w s hn hc he hp) fuel hf
+
+open I2N.Trav.Term in
+/-- the scheduler step of a worker that is in the loop or was bouncing does not depend on the fuel beyond `bound g`
+(the driver uses 100000) -/
+theorem resume_loop_fuel_independent (g : Graph) (d : Nat → Nat) (hr : Ranked g d) (hsym : EdgeSym g) (w : Nat) (s : State)
+    (out : Outcome) (hg : Good g d w s) (hpc : (s.wd w).pc.node? = none) (fuel : Nat) (hf : bound g ≤ fuel) :
+    resume g s w out fuel = resume g s w out (bound g) := by
+  obtain ⟨r, h1, h2⟩ := runLoop_terminates g d hr hsym w s [] hg fuel hf
+  have h3 := runLoop_of_runLoopO g w (bound g) s [] r h1 (bound g) (Nat.le_refl _)
+  unfold resume
+  split
+  · rw [h2, h3]
+  · rw [h2, h3]
+  · next heq => rw [heq] at hpc; cases hpc
+  · rfl
+  · rfl
+
+open I2N.Trav.Term in
+/-- pre-parsed graphs (the only flat node is the shared root), initial state: every worker's first block terminates -/
+theorem first_block_terminates (g : Graph) (hr : rankedB g = true) (hsym : edgeSymB g = true) (hflat : noFlatB g = true)
+    (ncls : Nat) (hcls : ∀ n, n < g.nodes.length → (g.node n).cls < ncls)
+    (store : List (String × List (String × String))) (w : Nat) (hw : w < g.workers.length) (fuel : Nat)
+    (hf : bound g ≤ fuel) :
+    ∃ r, runLoopO g w (bound g) (initState g ncls store) [] = some r ∧ runLoop g w fuel (initState g ncls store) [] = r := by
+  refine runLoop_terminates g (depth g) (rankedB_sound hr) (edgeSymB_sound hsym) w _ [] ?_ fuel hf
+  refine good_at_root g _ w _ (by simp [initState]) (clsOK_init g ncls store [] hcls) (explored_of_noFlat hflat _) ?_
+  unfold initState State.wd
+  simp only [List.getD_eq_getElem?_getD, List.getElem?_map, List.getElem?_eq_getElem hw]
+  rfl
+
+open I2N.Trav.Term in
+/-- **Every reachable state.**  In every state the scheduler can reach (`ReachableF`: steps of real workers with positive
+fuel, any interleaving, any outcomes) in which no flat node is unexplored, every worker is in a good state: the loop it
+runs next terminates within `bound g` iterations.  The shape of the paths (`Walk`) is an invariant of the traversal
+(`reachable_tinv`); registers and node records are those of the initial state (`hcls`: `ncls` exceeds every class). -/
+theorem reachable_loop_terminates (g : Graph) (d : Nat → Nat) (hr : Ranked g d) (hsym : EdgeSym g) (ncls : Nat)
+    (store : List (String × List (String × String))) (hcls : ∀ n, n < g.nodes.length → (g.node n).cls < ncls)
+    (s : State) (h : ReachableF g ncls store s) (he : Explored g s) (w : Nat) (evs : List Event) (fuel : Nat)
+    (hf : bound g ≤ fuel) : ∃ r, runLoopO g w (bound g) s evs = some r ∧ runLoop g w fuel s evs = r :=
+  runLoop_terminates g d hr hsym w s evs (reachable_good hr hsym hcls h he w) fuel hf
+
+open I2N.Trav.Term in
+/-- **A resumed worker reaches its next suspension, the exit or an exception within `bound g` iterations**, whatever
+the state of the other workers and the outcome of the test it was waiting for (`out`; also "never reported"): the
+scheduler step `resume` — including the continuation after a test execution — is the same for every `fuel ≥ bound g`,
+so the driver's fuel of 100000 never decides anything on graphs with `bound g ≤ 100000`. -/
+theorem resume_within_bound (g : Graph) (d : Nat → Nat) (hr : Ranked g d) (hsym : EdgeSym g) (ncls : Nat)
+    (store : List (String × List (String × String))) (hcls : ∀ n, n < g.nodes.length → (g.node n).cls < ncls)
+    (s : State) (h : ReachableF g ncls store s) (he : Explored g s) (w : Nat) (out : Outcome) (fuel : Nat)
+    (hf : bound g ≤ fuel) : resume g s w out fuel = resume g s w out (bound g) :=
+  resume_fuel g d hr hsym ncls store hcls s h he w out fuel hf
+
+open I2N.Trav.Term in
+/-- the same with decidable hypotheses, for pre-parsed graphs (the only flat node is the shared root) -/
+theorem preparsed_resume_within_bound (g : Graph) (hr : rankedB g = true) (hsym : edgeSymB g = true)
+    (hflat : noFlatB g = true) (ncls : Nat) (hcls : ∀ n, n < g.nodes.length → (g.node n).cls < ncls)
+    (store : List (String × List (String × String))) (s : State) (h : ReachableF g ncls store s) (w : Nat)
+    (out : Outcome) (fuel : Nat) (hf : bound g ≤ fuel) : resume g s w out fuel = resume g s w out (bound g) :=
+  resume_fuel g (depth g) (rankedB_sound hr) (edgeSymB_sound hsym) ncls store hcls s h (explored_of_noFlat hflat s) w out fuel hf
+
+open I2N.Trav.Term in
+/-- **Full termination of dry runs.**  Pre-parsed acyclic graph, every node a dry-run node, the root without parents,
+at most one node per class concerns the worker (`classInjB`; real graphs: one copy per class and worker).  Then the
+first scheduler step of the worker — from the initial state, with any fuel `≥ bound g` — is its WHOLE traversal: one
+block without suspension and without exception that ends with the exit event and leaves the worker `done`.
+(Beyond `loop_terminates` this needs the DFS invariant "the root is cleanup-ready only when the path is `[root]`",
+`DryInv`: the child of the root at position one is not dropped while the worker is below it.) -/
+theorem dry_run_terminates (g : Graph) (hr : rankedB g = true) (hsym : edgeSymB g = true) (hflat : noFlatB g = true)
+    (w : Nat) (hw : w < g.workers.length) (hinj : classInjB g w = true) (hroot : (g.node g.root).setup = [])
+    (hdry : ∀ n, n < g.nodes.length → (g.node n).dryRun = true)
+    (ncls : Nat) (hcls : ∀ n, n < g.nodes.length → (g.node n).cls < ncls)
+    (store : List (String × List (String × String))) (fuel : Nat) (hf : bound g ≤ fuel) :
+    ∃ s' evs', resume g (initState g ncls store) w ⟨none, 0⟩ fuel = (s', evs' ++ [Event.exit (g.worker w).id]) ∧
+      (s'.wd w).pc = .done :=
+  dry_run_one_block g (depth g) (rankedB_sound hr) (edgeSymB_sound hsym) w hw (classInjB_sound hinj) hroot hdry hflat
+    ncls hcls store fuel hf
+
+open I2N.Trav.Term in
+/-- **Lazily expanded graphs** (no `Explored` hypothesis).  While flat nodes are unexplored the loop has one more kind
+of iteration without suspension: the "postpone the cleanup" jump back to the root, which drops nothing.  Static
+hypotheses `LazyOK g`: the children of a flat node are its composite tests (`setless_form in id`), every flat node is
+a child of the shared root, no node shares the class of a flat node.  State hypotheses `LState g d w s`: tables of the
+right size, path of the right shape starting at the root, root and flat nodes parsed, and no unexplored flat node has
+been dropped from the root for this worker.  Then the loop ends by itself within
+`lazyBound g P = ((2|nodes|·(K·P+1) + K·P)·2 + 2)·bound g` iterations, `K` the number of children of the root and
+`P = pickLevel g s` a level above the pick counters of the state (1 initially).
+Measure (`mu`): (2·#unexplored − [the last node of the path is unexplored], Σ_{flat children c of the root} (P − picks c),
+[#unexplored > 0 ∧ path ≠ [root]], `phi`) lexicographically: the expansion step unrolls an unexplored node at hand; a
+jump resets the path; a pick at the root takes a flat child that was picked no more often than any unexplored one
+(`pickChild_min`: the sort key is flat-first, fewest-picks-first), which uses up room below `P`; everything else
+lowers `phi`. -/
+theorem lazy_loop_terminates (g : Graph) (d : Nat → Nat) (hr : Ranked g d) (hsym : EdgeSym g) (hz : LazyOK g) (w : Nat)
+    (s : State) (evs : List Event) (h : LState g d w s) (fuel : Nat) (hf : lazyBound g (pickLevel g s) ≤ fuel) :
+    ∃ r, runLoopO g w (lazyBound g (pickLevel g s)) s evs = some r ∧ runLoop g w fuel s evs = r :=
+  runLoop_terminates_lazy g d hr hsym hz w s evs h fuel hf
+
+open I2N.Trav.Term in
+/-- every `.cont` iteration on a lazily expanded graph lowers `mu` and keeps the invariant (`P` fixed for the block) -/
+theorem lazy_iteration_lowers_measure (g : Graph) (d : Nat → Nat) (hr : Ranked g d) (hsym : EdgeSym g) (hz : LazyOK g)
+    (w P : Nat) (s : State) (h : LInv g d w P s) (hc : (iterL g s w).2.2 = .cont) :
+    mu g (iterL g s w).1 w P < mu g s w P ∧ LInv g d w P (iterL g s w).1 :=
+  iterL_lazy g d hr hsym hz w P s h hc
+
+open I2N.Trav.Term in
+/-- decidable hypotheses, initial state with the composite nodes hidden: the first block of every worker terminates
+within `lazyBound g 1` iterations -/
+theorem lazy_first_block_terminates (g : Graph) (hr : rankedB g = true) (hsym : edgeSymB g = true) (hz : lazyOKB g = true)
+    (ncls : Nat) (hcls : ∀ n, n < g.nodes.length → (g.node n).cls < ncls)
+    (store : List (String × List (String × String))) (hidden : List Nat)
+    (hroot : hidden.contains g.root = false) (hflat : hidden.all (fun x => !(g.node x).flat) = true)
+    (w : Nat) (hw : w < g.workers.length) (fuel : Nat) (hf : lazyBound g 1 ≤ fuel) :
+    ∃ r, runLoopO g w (lazyBound g 1) (initState g ncls store hidden) [] = some r ∧
+      runLoop g w fuel (initState g ncls store hidden) [] = r := by
+  have hflat' : ∀ f, (g.node f).flat = true → hidden.contains f = false := by
+    intro f hf
+    cases hc : hidden.contains f
+    · rfl
+    · rw [List.all_eq_true] at hflat
+      have := hflat f (List.contains_iff_mem.mp hc)
+      rw [hf] at this; cases this
+  have h := runLoop_terminates_lazy g (depth g) (rankedB_sound hr) (edgeSymB_sound hsym) (lazyOKB_sound hz) w
+    (initState g ncls store hidden) [] (lstate_init g _ ncls store hidden hcls hroot hflat' w hw)
+  rw [pickLevel_init] at h
+  exact h fuel hf
+
+open I2N.Trav.Term in
+/-- **Every reachable state of a lazily expanded graph.**  `ReachableL g ncls store hidden`: the states the scheduler
+reaches from the initial state in which exactly `hidden` is not parsed yet (root and flat nodes are parsed).  In each
+of them, for every worker that has not left the loop, the state hypotheses `LState` hold (`reachable_lstate`: the path
+shape as before; "no unexplored flat node has been dropped from the root" because a worker pops a child of the root
+only after the expansion step has unrolled it, and the node of a test execution is never flat), hence the loop it runs
+next terminates within `lazyBound g (pickLevel g s)` iterations. -/
+theorem reachable_lazy_loop_terminates (g : Graph) (d : Nat → Nat) (hr : Ranked g d) (hsym : EdgeSym g) (hz : LazyOK g)
+    (ncls : Nat) (store : List (String × List (String × String))) (hidden : List Nat)
+    (hcls : ∀ n, n < g.nodes.length → (g.node n).cls < ncls)
+    (hroot : hidden.contains g.root = false) (hflat : ∀ f, (g.node f).flat = true → hidden.contains f = false)
+    (s : State) (h : ReachableL g ncls store hidden s) (w : Nat) (hw : w < g.workers.length)
+    (hnd : (s.wd w).pc ≠ .done) (evs : List Event) (fuel : Nat) (hf : lazyBound g (pickLevel g s) ≤ fuel) :
+    ∃ r, runLoopO g w (lazyBound g (pickLevel g s)) s evs = some r ∧ runLoop g w fuel s evs = r :=
+  runLoop_terminates_lazy g d hr hsym hz w s evs (reachable_lstate hr hsym hz hcls hroot hflat h w hw hnd) fuel hf
+
+/-- what remains partial about the loop between two suspension points: the bound for lazily expanded graphs depends on
+the state through the level `pickLevel g s` of the pick counters (a static bound needs "an unexplored flat node was
+picked at most once per worker" as one more reachable invariant), and the fuel independence of the whole scheduler step
+(`resume_within_bound`) was lifted to reachable states for explored states only.  `Explored` itself is monotone: -/
+theorem loop_terminates_partial (g : Graph) (s s' : State) (h : I2N.Trav.Term.Explored g s)
+    (hh : ∀ x, x ∈ s'.hidden → x ∈ s.hidden) (hi : ∀ x, x ∈ s.incompatible → x ∈ s'.incompatible) :
+    I2N.Trav.Term.Explored g s' := h.mono hh hi
+
+/-! ### non-vacuity and necessity of the hypotheses -/
+
+/-- a diamond of dry-run nodes below the root, one worker -/
+def gDia : Graph :=
+  { workers := [{ id := "net1", swarm := "localhost" }],
+    nodes := [{ cls := 0, owner := some 0, name := "root.net1", pfx := "0", sharedRoot := true, cleanup := [(1, ["vm1"])] },
+              { cls := 1, owner := some 0, name := "a.net1", pfx := "1", dryRun := true, setup := [(0, ["vm1"])],
+                cleanup := [(2, ["vm1"]), (3, ["vm1"])] },
+              { cls := 2, owner := some 0, name := "b.net1", pfx := "2", dryRun := true, setup := [(1, ["vm1"])],
+                cleanup := [(4, ["vm1"])] },
+              { cls := 3, owner := some 0, name := "c.net1", pfx := "3", dryRun := true, setup := [(1, ["vm1"])],
+                cleanup := [(4, ["vm1"])] },
+              { cls := 4, owner := some 0, name := "d.net1", pfx := "4", dryRun := true, setup := [(2, ["vm1"]), (3, ["vm1"])] }],
+    root := 0 }
+
+example : I2N.Trav.Term.bound gDia = 274 := by decide
+example := first_block_terminates gDia (by decide) (by decide) (by decide) 5 (by decide) [] 0 (by decide) 100000 (by decide)
+/-- the whole dry run of the diamond is one block of more than 14 iterations that ends with the exit event -/
+example : (runLoop gDia 0 (I2N.Trav.Term.bound gDia) (initState gDia 5 []) []).2 = [Event.exit "net1"] ∧
+    (runLoop gDia 0 14 (initState gDia 5 []) []).2 = [Event.raise "net1" "fuel"] := by decide
+/-- the hypotheses of `iteration_lowers_measure` are met by the first iteration (a push of the root's child) -/
+example : (match (iterL gDia (initState gDia 5 []) 0).2.2 with | .cont => true | _ => false) = true ∧
+    I2N.Trav.Term.phi gDia (initState gDia 5 []) 0 = 261 ∧
+    I2N.Trav.Term.phi gDia (iterL gDia (initState gDia 5 []) 0).1 0 = 260 := by decide
+
+/-- a reachable state in the middle of the traversal (the worker of `gTwo` is suspended inside its leaf): the hypotheses
+of `reachable_loop_terminates` / `resume_within_bound` hold -/
+example := preparsed_resume_within_bound gTwo (by decide) (by decide) (by decide) 2 (by decide) [] _
+  (.step _ 0 ⟨none, 0⟩ 9 (.init []) (by decide) (by decide)) 0 ⟨some "PASS", 1⟩ 100000 (by decide)
+example := reachable_loop_terminates gTwo _ (I2N.Trav.Term.rankedB_sound (by decide)) (edgeSymB_sound (by decide)) 2 []
+  (by decide) _ (.step _ 0 ⟨none, 0⟩ 9 (.init []) (by decide) (by decide)) (I2N.Trav.Term.explored_of_noFlat (by decide) _)
+  0 [] 100000 (by decide)
+
+/-- the diamond, with its root made a dry-run node too, meets the hypotheses of `dry_run_terminates` -/
+def gDiaDry : Graph :=
+  { gDia with nodes := gDia.nodes.map (fun nd => { nd with dryRun := true }) }
+
+example := dry_run_terminates gDiaDry (by decide) (by decide) (by decide) 0 (by decide) (by decide) (by decide) (by decide)
+  5 (by decide) [] 100000 (by decide)
+
+/-- a lazily expanded graph in the shape the harness builds: shared root, two flat nodes below it, per worker the
+composite tests `a` (child of the root, test of the first flat node) and `b` (child of `a`, test of the second flat
+node); the composite nodes are hidden initially -/
+def gLazy : Graph :=
+  { workers := [{ id := "net1", swarm := "localhost" }, { id := "net2", swarm := "localhost" }],
+    nodes := [{ cls := 0, owner := none, name := "root", pfx := "0", flat := true, sharedRoot := true,
+                cleanup := [(1, []), (2, []), (3, ["vm1"]), (5, ["vm1"])] },
+              { cls := 1, owner := none, name := "normal.nongui.a", pfx := "1", flat := true, setless := "a",
+                setup := [(0, [])], cleanup := [(3, []), (5, [])] },
+              { cls := 2, owner := none, name := "normal.nongui.b", pfx := "2", flat := true, setless := "b",
+                setup := [(0, [])], cleanup := [(4, []), (6, [])] },
+              { cls := 3, owner := some 0, name := "a.net1", pfx := "1", dryRun := true, setup := [(0, ["vm1"]), (1, [])],
+                cleanup := [(4, ["vm1"])] },
+              { cls := 4, owner := some 0, name := "b.net1", pfx := "2", dryRun := true, setup := [(3, ["vm1"]), (2, [])] },
+              { cls := 3, owner := some 1, name := "a.net2", pfx := "1", dryRun := true, setup := [(0, ["vm1"]), (1, [])],
+                cleanup := [(6, ["vm1"])] },
+              { cls := 4, owner := some 1, name := "b.net2", pfx := "2", dryRun := true, setup := [(5, ["vm1"]), (2, [])] }],
+    root := 0 }
+
+example := lazy_first_block_terminates gLazy (by decide) (by decide) (by decide) 5 (by decide) [] [3, 4, 5, 6]
+  (by decide) (by decide) 0 (by decide) 200000 (by decide)
+/-- the block of the first worker contains a postponement jump (from `[root, a-flat, a.net1]` straight to `[root]`, the
+ninth iteration, while the second flat node is unexplored) and ends with the exit after 24 iterations -/
+example : ((I2N.Trav.Term.tracePaths gLazy 0 9 (initState gLazy 5 [] [3, 4, 5, 6])).drop 7 = [[0, 1, 3], [0]]) ∧
+    (runLoop gLazy 0 24 (initState gLazy 5 [] [3, 4, 5, 6]) []).2 = [Event.exit "net1"] := by decide
+
+/-- a reachable state of `gLazy` (after the whole traversal of the first worker): the second worker's loop terminates -/
+example := reachable_lazy_loop_terminates gLazy _ (I2N.Trav.Term.rankedB_sound (by decide)) (edgeSymB_sound (by decide))
+  (I2N.Trav.Term.lazyOKB_sound (by decide)) 5 [] [3, 4, 5, 6] (by decide) (by decide)
+  (by intro f hf; have : ¬ (f = 3 ∨ f = 4 ∨ f = 5 ∨ f = 6) := by
+        rintro (h | h | h | h) <;> subst h <;> revert hf <;> decide
+      simp only [List.contains_cons, List.contains_nil, Bool.or_false, Bool.or_eq_false_iff, beq_eq_false_iff_ne]
+      omega)
+  _ (.step _ 0 ⟨none, 0⟩ 100 .init (by decide) (by decide)) 1 (by decide)
+  (fun h => by
+    have := congrArg (fun p => match p with | Pc.done => true | _ => false) h
+    revert this; decide) [] _ (Nat.le_refl _)
+
+/-- Necessity of acyclicity (model level; real graphs are acyclic by construction): on a graph with a cycle `a ⇄ b`
+the worker pushes parents for ever — the loop does run out of fuel. -/
+def gCyc : Graph :=
+  { workers := [{ id := "net1", swarm := "localhost" }],
+    nodes := [{ cls := 0, owner := some 0, name := "root.net1", pfx := "0", sharedRoot := true, cleanup := [(1, ["vm1"])] },
+              { cls := 1, owner := some 0, name := "a.net1", pfx := "1", dryRun := true, setup := [(0, ["vm1"]), (2, ["vm1"])],
+                cleanup := [(2, ["vm1"])] },
+              { cls := 2, owner := some 0, name := "b.net1", pfx := "2", dryRun := true, setup := [(1, ["vm1"])],
+                cleanup := [(1, ["vm1"])] }],
+    root := 0 }
+
+theorem cyclic_graph_spins : edgeSymB gCyc = true ∧ I2N.Trav.Term.rankedB gCyc = false ∧
+    (runLoop gCyc 0 20 (initState gCyc 3 []) []).2 = [Event.raise "net1" "fuel"] ∧
+    ((runLoop gCyc 0 20 (initState gCyc 3 []) []).1.wd 0).path.length = 19 := by decide
+
+/-- Necessity of `ClsOK`: with registers for two of the five classes only, the drops of the other classes are lost and
+the worker walks up and down between `a` and `b` for ever. -/
+theorem missing_registers_spin :
+    (runLoop gDia 0 25 (initState gDia 2 []) []).2 = [Event.raise "net1" "fuel"] := by decide
+
+/-- Necessity of `Explored` (model level): a flat node that is nobody's child can never be unrolled, so every cleanup
+is postponed by a jump back to the root that drops nothing.  In the graphs the parser and the harness build, every flat
+node is a child of the shared root and gets unrolled by the first worker that picks it; the termination of the
+postponement phase then rests on the pick counters (fewest picks first) and is NOT covered by the theorems above. -/
+def gUnx : Graph :=
+  { workers := [{ id := "net1", swarm := "localhost" }],
+    nodes := [{ cls := 0, owner := some 0, name := "root.net1", pfx := "0", sharedRoot := true, cleanup := [(1, ["vm1"])] },
+              { cls := 1, owner := some 0, name := "a.net1", pfx := "1", dryRun := true, setup := [(0, ["vm1"])] },
+              { cls := 2, owner := none, name := "f", pfx := "2", flat := true, setless := "zzz" }],
+    root := 0 }
+
+theorem unexplored_orphan_spins : I2N.Trav.Term.rankedB gUnx = true ∧ edgeSymB gUnx = true ∧
+    (runLoop gUnx 0 25 (initState gUnx 3 []) []).2 = [Event.raise "net1" "fuel"] := by decide
 
 end I2N.Props.C02
